@@ -560,3 +560,30 @@ def main() -> int:
     code = run.finish()
     # a replayed violation (1) or a harness error (3) found by the other layers outranks "lexer not encodable" (2)
     return code if (code in (1, 3) or sess is not None) else 2
+
+
+def replay(data: dict) -> int:
+    """vt replay: backends-layer witnesses call c19_backends.check, everything else is evaluated in this module."""
+    w = data["witness"]
+    call = w.get("call")
+    if not call:
+        print("replay file has no harness call; see its 'what' field:", data.get("what"))
+        return 2
+    if call.startswith("check("):
+        from . import c19_backends as mod
+        mod.prepare()
+        env = dict(vars(mod))
+    else:
+        env = dict(globals())
+    for i, a in enumerate(w.get("args", [])):
+        env[f"x{i}"] = a
+    if w.get("arg_names"):
+        env.update(dict(zip(w["arg_names"], w["args"])))
+    try:
+        res = eval(call, env)  # noqa: S307
+        outcome, bad = f"returned {res!r}", res is not True
+    except Exception as e:  # noqa: BLE001
+        outcome, bad = f"raised {type(e).__name__}: {e}", True
+    print(f"property=C19 harness={w.get('harness')} call={call} args={w.get('args')!r} -> {outcome}")
+    print("REPRODUCED" if bad else "NOT REPRODUCED (property holds on this input now)")
+    return 1 if bad else 0
